@@ -3,9 +3,12 @@ C13, part 6 — helper lemmas for the event traces (KinModel/C13Trace.lean): the
 the scheme loops of the stream model (`schemeLoop`, `schemeLoopNoBody`) are iterations of the loop-body paths
 `srLoopPaths`; `secReq` is a complete path of the segment list `srSegs` (Props/C13.lean: `srSegs` is what the
 regenerated table gives for validateSecurityRequirement); likewise `secPhase` over `vsrSegs` and `validateStream` over
-`vrSegs`, where the events are calls executed by the stream model of the called function.
+`vrSegs`, where the events are calls executed by the stream model of the called function.  Converse direction for
+validateSecurityRequirement: EVERY complete path of `srSegs` that runs concretely on a request with a body leaves it
+readable (`srSegs_readable`, by an invariant of the scheme loop over all derivations of `SegPath`).
 -/
 import KinModel.C13Trace
+import KinModel.Lemmas.C13Stream
 namespace KinModel.C13.Trace
 open KinModel.Gen KinModel.C13.Stream
 
@@ -179,5 +182,131 @@ theorem validateStream_follows_vrSegs (c : Cfg) (oc : Bytes → BodyOutcome) (r 
             (SegPath.loopExit _ _ _ (SegPath.straightRet _ _ _ (by simp))))), ?_, ?_⟩
         · simp [runK, stepK, hx]
         · simp [validateStream, hx, h1, h2, hb]
+
+theorem runR_append_some (t u : List Ev) (s s' : RSt) (h : runR (t ++ u) s = some s') :
+    ∃ s1, runR t s = some s1 ∧ runR u s1 = some s' := by
+  rw [runR_append] at h
+  cases h1 : runR t s with
+  | none => simp [h1] at h
+  | some s1 => exact ⟨s1, rfl, by simpa [h1] using h⟩
+
+theorem srIter_inv (data : Bytes) (t : List Ev) (b : Bool) (hm : (t, b) ∈ srLoopPaths) (s s1 : RSt)
+    (hi : InvR data s) (hr : runR t s = some s1) : InvR data s1 := by
+  obtain ⟨req, d, dfr, auths, seen⟩ := s
+  obtain ⟨h1, h2, h3, h4⟩ := hi
+  simp only at h1 h2 h3 h4
+  subst h1 h2
+  simp only [srLoopPaths, List.mem_cons, Prod.mk.injEq, List.not_mem_nil, or_false] at hm
+  rcases hm with ⟨rfl, _⟩ | ⟨rfl, _⟩ | ⟨rfl, _⟩ | ⟨rfl, _⟩ | ⟨rfl, _⟩
+  · simp [runR] at hr; subst hr; exact ⟨rfl, rfl, h3, h4⟩
+  all_goals
+    cases auths with
+    | nil => simp [runR, stepR] at hr
+    | cons a rest =>
+      simp [runR, stepR] at hr
+      try (subst hr
+           refine ⟨rfl, rfl, runAuth_getOK _ _ _ (restore_getOK _ _ h3), ?_⟩
+           intro x hx
+           simp only [List.mem_append, List.mem_singleton] at hx
+           rcases hx with hx | hx
+           · exact h4 x hx
+           · subst hx; simp [readAll, restore_body _ _ h3])
+
+theorem srLoopPaths_no_cont : ∀ p ∈ srLoopPaths, Ev.cont ∉ p.1 ∧ Ev.brk ∉ p.1 := by decide
+
+theorem srTail_inv (data : Bytes) : ∀ sg t, SegPath sg t → (sg = srTail ∨ sg = [.straight [([], true)]]) →
+    ∀ s s', InvR data s → runR t s = some s' → InvR data s' := by
+  intro sg t hp
+  induction hp with
+  | done => intro h; rcases h with h | h <;> simp [srTail] at h
+  | straightRet ps rest t hm =>
+    intro h s s' hi hr
+    rcases h with h | h
+    · simp [srTail] at h
+    · simp at h; obtain ⟨rfl, rfl⟩ := h
+      simp at hm; subst hm
+      simp [runR] at hr; subst hr; exact hi
+  | straightFall ps rest t u hm hp ih =>
+    intro h
+    rcases h with h | h
+    · simp [srTail] at h
+    · simp at h; obtain ⟨rfl, rfl⟩ := h
+      simp at hm
+  | loopExit ps rest u hp ih =>
+    intro h s s' hi hr
+    rcases h with h | h
+    · simp [srTail] at h; obtain ⟨rfl, rfl⟩ := h
+      exact ih (Or.inr rfl) s s' hi hr
+    · simp at h
+  | loopFall ps rest t u hm hp ih =>
+    intro h s s' hi hr
+    rcases h with h | h
+    · have h' := h
+      simp [srTail] at h'; obtain ⟨rfl, rfl⟩ := h'
+      obtain ⟨s1, hr1, hr2⟩ := runR_append_some _ _ _ _ hr
+      exact ih (Or.inl rfl) s1 s' (srIter_inv data _ _ hm s s1 hi hr1) hr2
+    · simp at h
+  | loopRet ps rest t hm =>
+    intro h s s' hi hr
+    rcases h with h | h
+    · simp [srTail] at h; obtain ⟨rfl, rfl⟩ := h
+      exact srIter_inv data _ _ hm s s' hi hr
+    · simp at h
+  | loopCont ps rest t u hm hp ih =>
+    intro h
+    rcases h with h | h
+    · simp [srTail] at h; obtain ⟨rfl, rfl⟩ := h
+      exact absurd (List.mem_append_right t (List.mem_singleton.mpr rfl)) (srLoopPaths_no_cont _ hm).1
+    · simp at h
+  | loopBrk ps rest t u hm hp ih =>
+    intro h
+    rcases h with h | h
+    · simp [srTail] at h; obtain ⟨rfl, rfl⟩ := h
+      exact absurd (List.mem_append_right t (List.mem_singleton.mpr rfl)) (srLoopPaths_no_cont _ hm).2
+    · simp at h
+
+/-- a loop whose body does nothing: its paths are the paths of what follows -/
+theorem emptyLoop_skip (rest : List Seg) : ∀ sg t, SegPath sg t → sg = .loop [([], false)] :: rest → SegPath rest t := by
+  intro sg t hp
+  induction hp with
+  | done => intro h; simp at h
+  | straightRet ps rest' t hm => intro h; simp at h
+  | straightFall ps rest' t u hm hp ih => intro h; simp at h
+  | loopExit ps rest' u hp ih => intro h; simp at h; obtain ⟨rfl, rfl⟩ := h; exact hp
+  | loopFall ps rest' t u hm hp ih =>
+    intro h; have h' := h; simp at h'; obtain ⟨rfl, rfl⟩ := h'
+    simp at hm; subst hm; simpa using ih rfl
+  | loopRet ps rest' t hm => intro h; simp at h; obtain ⟨rfl, rfl⟩ := h; simp at hm
+  | loopCont ps rest' t u hm hp ih => intro h; simp at h; obtain ⟨rfl, rfl⟩ := h; simp at hm
+  | loopBrk ps rest' t u hm hp ih => intro h; simp at h; obtain ⟨rfl, rfl⟩ := h; simp at hm
+
+theorem srSegs_readable (data : Bytes) (r : Req) (h : Coherent r data) (auths : List Auth) (t : List Ev)
+    (hp : SegPath srSegs t) (s' : RSt) (hr : runR t ⟨r, none, false, auths, []⟩ = some s') :
+    Readable (finish s') data ∧ ∀ x ∈ s'.seen, x = data := by
+  have h0 : Readable r data := ⟨by simp [readAll, h.1], h.2⟩
+  unfold srSegs at hp
+  cases hp with
+  | straightRet _ _ _ hm =>
+    simp at hm; subst hm
+    simp [runR] at hr; subst hr
+    exact ⟨by simpa [finish] using h0, by simp⟩
+  | straightFall _ _ t1 u hm hp1 =>
+    simp at hm; subst hm
+    have hp2 := emptyLoop_skip _ _ _ hp1 rfl
+    cases hp2 with
+    | straightRet _ _ _ hm =>
+      simp at hm; subst hm
+      simp [runR] at hr; subst hr
+      exact ⟨by simpa [finish] using h0, by simp⟩
+    | straightFall _ _ t2 u2 hm hp3 =>
+      simp at hm
+      rcases hm with rfl | rfl
+      · simp [runR, stepR, h.1, readAll] at hr
+        have hi : InvR data ⟨drain r, some data, true, auths, []⟩ := ⟨rfl, rfl, drain_getOK _ _ h.2, by simp⟩
+        obtain ⟨e1, e2, e3, e4⟩ := srTail_inv data _ _ hp3 (Or.inl rfl) _ _ hi hr
+        refine ⟨?_, e4⟩
+        simp [finish, e1, e2]
+        exact ⟨by simp [readAll, restore_body _ _ e3], restore_getOK _ _ e3⟩
+      · simp [runR, stepR, h.1] at hr
 
 end KinModel.C13.Trace
